@@ -236,6 +236,9 @@ inductive Effect
   | read (u : Name)      -- profile page of `u` was rendered to the caller
   | listed               -- the list of all users was rendered
   | cert (cn : Name)     -- a role-requesting certificate for `cn` was issued
+  /-- token data belonging to `owner` is now stored in the profile row of `row` (observed through
+  the owner-tagged fixture tokens; no operation of keymaster moves tokens between users) -/
+  | copied (owner row : Name)
 deriving DecidableEq, Repr
 
 inductive Outcome
@@ -294,6 +297,7 @@ def effectAllowed (cfg : Cfg) (groups : Groups) (op : Op) (actor : Name) (level 
     op == .roleCert && cn == target &&
       (isAdmin cfg groups actor || cfg.automationAdmins.contains actor) &&
       isAutomationIdentity cfg groups cn
+  | .copied owner row => owner == row
 
 /-- a 2xx/3xx answer of a user-administration endpoint is itself reserved to administrators -/
 def statusAllowed (cfg : Cfg) (groups : Groups) (op : Op) (actor : Name) : Bool :=
@@ -384,6 +388,51 @@ def cstep (maxDur : Nat) (s : CState) : Ev → CState
 def crun (maxDur : Nat) (s : CState) (evs : List Ev) : CState := evs.foldl (cstep maxDur) s
 
 
+/-! ## the profile store: a row is looked up under exactly the key the handler uses
+
+`LoadUserProfile`, `SaveUserProfile`, `DeleteUserProfile` address `user_profile` rows by
+`username = ?`. Tokens carry a ghost `owner`: the user whose registration created them. -/
+
+structure Tok where
+  owner : Name
+  id : Nat
+deriving DecidableEq, Repr
+
+abbrev Store := Name → Option (List Tok)
+
+/-- `LoadUserProfile(k)`: the row stored under exactly `k`; the empty profile when there is none -/
+def Store.load (st : Store) (k : Name) : List Tok := (st k).getD []
+
+def Store.save (st : Store) (k : Name) (l : List Tok) : Store := fun x => if x = k then some l else st x
+
+def Store.delete (st : Store) (k : Name) : Store := fun x => if x = k then none else st x
+
+/-- what an accepted request does to the store: every handler loads row `eff`, edits it, saves it
+under `eff` (`idx`: the managed token, `newId`: the index of a newly registered one) -/
+def storeStep (st : Store) (op : Op) (eff : Name) (idx newId : Nat) : Store :=
+  match op with
+  | .manageU2F .delete | .manageTOTP .delete =>
+    st.save eff ((st.load eff).filter (fun t => t.id != idx))
+  | .u2fRegFinish | .waRegFinish | .totpValidateNew => st.save eff (⟨eff, newId⟩ :: st.load eff)
+  | .deleteUser => st.delete eff
+  | .viewProfile | .listUsers | .roleCert => st
+  | _ => st.save eff (st.load eff)
+
+/-- the tokens the profile page of `eff` lists -/
+def shownTokens (st : Store) (eff : Name) : List Tok := st.load eff
+
+/-- every stored token sits in its owner's row -/
+def Store.WF (st : Store) : Prop := ∀ u l, st u = some l → ∀ t, t ∈ l → t.owner = u
+
+structure StoreOp where
+  op : Op
+  eff : Name
+  idx : Nat
+  newId : Nat
+
+def storeRun (st : Store) (l : List StoreOp) : Store :=
+  l.foldl (fun s o => storeStep s o.op o.eff o.idx o.newId) st
+
 /-! ## sequences of requests on one shared admin cache (order-dependent authorisation)
 
 Today's code has exactly one writer of `isAdminCache`: `IsAdminUser(user)`, which stores
@@ -409,6 +458,7 @@ def effectAllowedB (adm : Bool) (cfg : Cfg) (groups : Groups) (op : Op) (actor :
   | .cert cn =>
     op == .roleCert && cn == target && (adm || cfg.automationAdmins.contains actor) &&
       isAutomationIdentity cfg groups cn
+  | .copied owner row => owner == row
 
 def statusAllowedB (adm : Bool) (op : Op) : Bool := !(op.userAdmin) || adm
 
